@@ -59,13 +59,26 @@ def _trans(case):
     return tr
 
 
+def _point(case):
+    """(the point as floats for the reference, the point as the caller hands it over): whole metres as Python ints or numpy
+    integers, numpy float64, or plain floats."""
+    X = case["X"]
+    nk = case.get("num", "float")
+    if nk in ("int", "npint"):
+        X = [float(round(v)) for v in X]
+        return X, [int(v) if nk == "int" else np.int64(int(v)) for v in X]
+    if nk == "np64":
+        return X, [np.float64(v) for v in X]
+    return X, X
+
+
 def check_linear(case):
     tf = repo.mod("geodepy.transform")
     tr = _trans(case)
     epoch = _date(case["epoch"])
-    X = case["X"]
+    X, A = _point(case)
     p, dt = _advanced(tr, epoch, case["trans"])
-    got = tf.conform14(X[0], X[1], X[2], epoch, tr)
+    got = tf.conform14(A[0], A[1], A[2], epoch, tr)
     if not is_seq(got, 4):
         raise Fail("conform14 did not return (x, y, z, vcv)", observed=repr(got))
     want = H.apply_float(p, X)
@@ -134,7 +147,7 @@ def check_atrf(case):
     tf = repo.mod("geodepy.transform")
     c = repo.mod("geodepy.constants")
     epoch = _date(case["epoch"])
-    X = case["X"]
+    X, A = _point(case)
     if case.get("vcv") is not None:
         V = np.array(case["vcv"], dtype=float)
         for fn, tset, nm in ((tf.transform_atrf2014_to_gda2020, c.atrf2014_to_gda2020, "transform_atrf2014_to_gda2020"),
@@ -144,7 +157,7 @@ def check_atrf(case):
             if not _dist(w[:3], r[:3]) <= 2e-6 or not _same_cov(w[3], r[3]):
                 raise Fail("%s with a covariance is not conform14 with the (negated) plate-motion set and that covariance" % nm,
                            expected={"xyz": r[:3], "vcv": r[3]}, observed={"xyz": w[:3], "vcv": w[3]}, bucket="atrf wrapper vcv")
-    fwd = tf.transform_atrf2014_to_gda2020(X[0], X[1], X[2], epoch)
+    fwd = tf.transform_atrf2014_to_gda2020(A[0], A[1], A[2], epoch)
     ref = tf.conform14(X[0], X[1], X[2], epoch, c.atrf2014_to_gda2020)
     if not _dist(fwd[:3], ref[:3]) <= 2e-6:
         raise Fail("transform_atrf2014_to_gda2020 is not conform14 with the plate-motion set", expected=ref[:3], observed=fwd[:3])
@@ -203,9 +216,10 @@ def _random_set(draw):
 
 
 _vcv_opt = st.one_of(st.none(), st.none(), TR.psd3())
+_num = st.sampled_from(["float", "float", "float", "float", "int", "npint", "np64"])
 cases = st.fixed_dictionaries({"trans": st.one_of(st.deferred(_shipped), st.deferred(_shipped), _random_set()),
-                               "epoch": _epoch(), "X": TR.point(1e7), "vcv": _vcv_opt})
-atrf_cases = st.fixed_dictionaries({"epoch": _epoch(), "X": TR.point(1e7), "vcv": _vcv_opt})
+                               "epoch": _epoch(), "X": TR.point(1e7), "vcv": _vcv_opt, "num": _num})
+atrf_cases = st.fixed_dictionaries({"epoch": _epoch(), "X": TR.point(1e7), "vcv": _vcv_opt, "num": _num})
 
 
 def enumerate_shipped(tier, seed, shard, nshards):
@@ -226,7 +240,7 @@ def enumerate_shipped(tier, seed, shard, nshards):
             order.reverse()
         for n in order:
             X = pts[(i + len(n)) % len(pts)] if tier == "quick" else [rnd.uniform(-1e7, 1e7) for _ in range(3)]
-            yield {"trans": {"name": n}, "epoch": list(e), "X": X}
+            yield {"trans": {"name": n}, "epoch": list(e), "X": X, "num": ["float", "float", "int", "float", "npint", "np64"][(i + len(n)) % 6]}
 
 
 def _fill_point(u_az, u_z, u_r):
